@@ -20,12 +20,18 @@
 (*              the pruned copy: a worker registered (constructor / restart() in another    *)
 (*              thread) inside that window is overwritten by the stale copy - alive, never  *)
 (*              yielded again, not closed by autoclose.  TLC must reject it (C19_Exact).    *)
+(*   held[w]    scenario: does the caller keep the object the constructor returned?  The    *)
+(*              registry, not the caller, owns the reference: nothing may depend on held    *)
+(*              (a fire-and-forget worker inside an autoclose block is the normal use).     *)
+(*   WeakRegistry TRUE: the registry stores weak references: a worker nobody else references *)
+(*              (a process worker whose handle was dropped) disappears from it while its    *)
+(*              child keeps running - not yielded, not closed by autoclose.  TLC rejects it. *)
 EXTENDS Naturals, Sequences, FiniteSets, TLC, RegistryProps
 
-CONSTANTS N, Threads, MaxSteps, FixPrune, FixRestart, PruneOutsideLock, Hist, Atomic, Ops
+CONSTANTS N, Threads, MaxSteps, FixPrune, FixRestart, PruneOutsideLock, WeakRegistry, HeldSet, Hist, Atomic, Ops
 
-VARIABLES st, pers, reg, lock, tpc, mayv, mustv, diedc, snap, calls, autos, ncreated, nsteps, h
-vars == <<st, pers, reg, lock, tpc, mayv, mustv, diedc, snap, calls, autos, ncreated, nsteps, h>>
+VARIABLES held, st, pers, reg, lock, tpc, mayv, mustv, diedc, snap, calls, autos, ncreated, nsteps, h
+vars == <<held, st, pers, reg, lock, tpc, mayv, mustv, diedc, snap, calls, autos, ncreated, nsteps, h>>
 
 W == 1..N
 Live == {w \in W : st[w] = "live"}
@@ -35,7 +41,7 @@ Alive(s) == SelectSeq(s, LAMBDA w : st[w] = "live")
 Retained(s) == Cardinality({w \in Range(s) : st[w] = "dead"})
 Idle == \A t \in Threads : tpc[t] = "idle"
 
-Init == /\ st = [w \in W |-> "none"] /\ pers = [w \in W |-> FALSE]
+Init == /\ st = [w \in W |-> "none"] /\ pers = [w \in W |-> FALSE] /\ held = [w \in W |-> TRUE]
         /\ reg = <<>> /\ lock = 0
         /\ tpc = [t \in Threads |-> "idle"] /\ mayv = [t \in Threads |-> {}] /\ mustv = [t \in Threads |-> {}] /\ diedc = [t \in Threads |-> 0]
         /\ snap = [t \in Threads |-> <<>>]
@@ -44,13 +50,15 @@ Init == /\ st = [w \in W |-> "none"] /\ pers = [w \in W |-> FALSE]
 Log(e) == /\ h' = (IF Hist THEN Append(h, e) ELSE h) /\ nsteps' = nsteps + 1
 Budget == nsteps < MaxSteps
 
-Create(run, p) ==
+Create(run, p, hd) ==
    /\ "create" \in Ops /\ Budget /\ ncreated < N /\ lock = 0
+   /\ (hd \/ (run /\ ~p))              \* scenarios drop the handle of running one-shot workers only
+   /\ held' = [held EXCEPT ![ncreated + 1] = hd]
    /\ LET w == ncreated + 1 IN
       /\ st' = [st EXCEPT ![w] = IF run THEN "live" ELSE "norun"]
       /\ pers' = [pers EXCEPT ![w] = p]
-      /\ reg' = (IF run THEN Append(reg, w) ELSE reg)
-      /\ Log(<<"create", w, IF run THEN "run" ELSE "norun", IF p THEN "pers" ELSE "once">>)
+      /\ reg' = (IF run /\ (hd \/ ~WeakRegistry) THEN Append(reg, w) ELSE reg)
+      /\ Log(<<"create", w, IF run THEN "run" ELSE "norun", IF p THEN "pers" ELSE IF hd THEN "once" ELSE "once-unheld">>)
    /\ ncreated' = ncreated + 1
    /\ mayv' = [t \in Threads |-> IF tpc[t] # "idle" /\ run THEN mayv[t] \cup {ncreated + 1} ELSE mayv[t]]
    /\ UNCHANGED <<lock, tpc, mustv, diedc, snap, calls, autos>>
@@ -60,7 +68,7 @@ Die(w) == /\ "die" \in Ops /\ Budget /\ st[w] = "live"
           /\ diedc' = [t \in Threads |-> IF tpc[t] # "idle" THEN diedc[t] + 1 ELSE diedc[t]]
           /\ Log(<<"die", w, "-", "-">>)
           /\ mustv' = [t \in Threads |-> mustv[t] \ {w}]
-          /\ UNCHANGED <<pers, reg, lock, tpc, mayv, snap, calls, autos, ncreated>>
+          /\ UNCHANGED <<held, pers, reg, lock, tpc, mayv, snap, calls, autos, ncreated>>
 
 \* restart() of a dead persistent worker (restart of a live one = Die, then this)
 Restart(w) == /\ "restart" \in Ops /\ Budget /\ pers[w] /\ st[w] = "dead" /\ lock = 0
@@ -68,7 +76,7 @@ Restart(w) == /\ "restart" \in Ops /\ Budget /\ pers[w] /\ st[w] = "dead" /\ loc
               /\ reg' = (IF FixRestart /\ w \notin Range(reg) THEN Append(reg, w) ELSE reg)
               /\ Log(<<"restart", w, "-", "-">>)
               /\ mayv' = [t \in Threads |-> IF tpc[t] # "idle" THEN mayv[t] \cup {w} ELSE mayv[t]]
-              /\ UNCHANGED <<pers, lock, tpc, mustv, diedc, snap, calls, autos, ncreated>>
+              /\ UNCHANGED <<held, pers, lock, tpc, mustv, diedc, snap, calls, autos, ncreated>>
 
 Pruned == IF FixPrune THEN Alive(reg) ELSE reg
 CallRec(t, y, lb, d) == [t |-> t, y |-> y, lb |-> lb, la |-> SeqOf(Live), retained |-> Retained(reg'), died |-> d]
@@ -78,44 +86,44 @@ AcAtomic(t) == /\ Atomic /\ "ac" \in Ops /\ Budget /\ Idle /\ lock = 0
                /\ reg' = Pruned
                /\ calls' = Append(calls, CallRec(t, Pruned, SeqOf(Live), 0))
                /\ Log(<<"ac", t, "-", "-">>)
-               /\ UNCHANGED <<st, pers, lock, tpc, mayv, mustv, diedc, snap, autos, ncreated>>
+               /\ UNCHANGED <<held, st, pers, lock, tpc, mayv, mustv, diedc, snap, autos, ncreated>>
 
 Begin(t) == /\ ~Atomic /\ "ac" \in Ops /\ Budget /\ tpc[t] = "idle"
             /\ tpc' = [tpc EXCEPT ![t] = "want"]
             /\ mayv' = [mayv EXCEPT ![t] = Live] /\ mustv' = [mustv EXCEPT ![t] = Live] /\ diedc' = [diedc EXCEPT ![t] = 0]
             /\ Log(<<"ac", t, "-", "-">>)
-            /\ UNCHANGED <<st, pers, reg, lock, snap, calls, autos, ncreated>>
+            /\ UNCHANGED <<held, st, pers, reg, lock, snap, calls, autos, ncreated>>
 Lock(t) == /\ tpc[t] = "want" /\ lock = 0
            /\ lock' = t /\ tpc' = [tpc EXCEPT ![t] = "locked"]
-           /\ UNCHANGED <<st, pers, reg, mayv, mustv, diedc, snap, calls, autos, ncreated, nsteps, h>>
+           /\ UNCHANGED <<held, st, pers, reg, mayv, mustv, diedc, snap, calls, autos, ncreated, nsteps, h>>
 PruneCopy(t) == /\ tpc[t] = "locked" /\ ~PruneOutsideLock
                 /\ reg' = Pruned /\ snap' = [snap EXCEPT ![t] = Pruned]
                 /\ tpc' = [tpc EXCEPT ![t] = "copied"]
-                /\ UNCHANGED <<st, pers, lock, mayv, mustv, diedc, calls, autos, ncreated, nsteps, h>>
+                /\ UNCHANGED <<held, st, pers, lock, mayv, mustv, diedc, calls, autos, ncreated, nsteps, h>>
 \* the variant with two lock sections: copy; release; filter the copy (no lock); lock again; store
 CopyOnly(t) == /\ tpc[t] = "locked" /\ PruneOutsideLock
                /\ snap' = [snap EXCEPT ![t] = reg] /\ lock' = 0
                /\ tpc' = [tpc EXCEPT ![t] = "filter"]
-               /\ UNCHANGED <<st, pers, reg, mayv, mustv, diedc, calls, autos, ncreated, nsteps, h>>
+               /\ UNCHANGED <<held, st, pers, reg, mayv, mustv, diedc, calls, autos, ncreated, nsteps, h>>
 Filter(t) == /\ tpc[t] = "filter"
              /\ snap' = [snap EXCEPT ![t] = Alive(snap[t])]
              /\ tpc' = [tpc EXCEPT ![t] = "want2"]
-             /\ UNCHANGED <<st, pers, reg, lock, mayv, mustv, diedc, calls, autos, ncreated, nsteps, h>>
+             /\ UNCHANGED <<held, st, pers, reg, lock, mayv, mustv, diedc, calls, autos, ncreated, nsteps, h>>
 Lock2(t) == /\ tpc[t] = "want2" /\ lock = 0
             /\ lock' = t /\ tpc' = [tpc EXCEPT ![t] = "locked2"]
-            /\ UNCHANGED <<st, pers, reg, mayv, mustv, diedc, snap, calls, autos, ncreated, nsteps, h>>
+            /\ UNCHANGED <<held, st, pers, reg, mayv, mustv, diedc, snap, calls, autos, ncreated, nsteps, h>>
 Store(t) == /\ tpc[t] = "locked2"
             /\ reg' = snap[t]
             /\ tpc' = [tpc EXCEPT ![t] = "copied"]
-            /\ UNCHANGED <<st, pers, lock, mayv, mustv, diedc, snap, calls, autos, ncreated, nsteps, h>>
+            /\ UNCHANGED <<held, st, pers, lock, mayv, mustv, diedc, snap, calls, autos, ncreated, nsteps, h>>
 Release(t) == /\ tpc[t] = "copied"
               /\ lock' = 0 /\ tpc' = [tpc EXCEPT ![t] = "yield"]
-              /\ UNCHANGED <<st, pers, reg, mayv, mustv, diedc, snap, calls, autos, ncreated, nsteps, h>>
+              /\ UNCHANGED <<held, st, pers, reg, mayv, mustv, diedc, snap, calls, autos, ncreated, nsteps, h>>
 Return(t) == /\ tpc[t] = "yield"
              /\ calls' = Append(calls, [t |-> t, y |-> snap[t], lb |-> SeqOf(mayv[t]), la |-> SeqOf(mustv[t]),
                                         retained |-> Retained(reg), died |-> diedc[t]])
              /\ tpc' = [tpc EXCEPT ![t] = "idle"]
-             /\ UNCHANGED <<st, pers, reg, lock, mayv, mustv, diedc, snap, autos, ncreated, nsteps, h>>
+             /\ UNCHANGED <<held, st, pers, reg, lock, mayv, mustv, diedc, snap, autos, ncreated, nsteps, h>>
 
 \* leaving an autoclose block: every yielded worker is closed / waited for / terminated
 Auto == /\ "auto" \in Ops /\ Budget /\ Idle /\ lock = 0
@@ -123,9 +131,9 @@ Auto == /\ "auto" \in Ops /\ Budget /\ Idle /\ lock = 0
         /\ st' = [w \in W |-> IF w \in Range(Pruned) /\ st[w] = "live" THEN "dead" ELSE st[w]]
         /\ autos' = Append(autos, [after |-> SeqOf({w \in Live : w \notin Range(Pruned)})])
         /\ Log(<<"auto", 0, "-", "-">>)
-        /\ UNCHANGED <<pers, lock, tpc, mayv, mustv, diedc, snap, calls, ncreated>>
+        /\ UNCHANGED <<held, pers, lock, tpc, mayv, mustv, diedc, snap, calls, ncreated>>
 
-Next == \/ \E run \in BOOLEAN, p \in BOOLEAN : Create(run, p)
+Next == \/ \E run \in BOOLEAN, p \in BOOLEAN, hd \in HeldSet : Create(run, p, hd)
         \/ \E w \in W : Die(w) \/ Restart(w)
         \/ \E t \in Threads : AcAtomic(t) \/ Begin(t) \/ Lock(t) \/ PruneCopy(t) \/ Release(t) \/ Return(t)
         \/ \E t \in Threads : CopyOnly(t) \/ Filter(t) \/ Lock2(t) \/ Store(t)
@@ -149,6 +157,7 @@ W_NoRestartAfterPrune == ~(\E w \in W : st[w] = "live" /\ pers[w] /\ Len(calls) 
 W_NoConcurrentDeath == ~(\E k \in 1..Len(calls) : calls[k].died > 0 /\ calls[k].retained > 0)
 \* a registration can be attempted while a caller is between lock and release: in the algorithm it waits
 W_NoCreateDuringCall == ~(\E t \in Threads : tpc[t] \in {"copied", "yield"} /\ Cardinality(mayv[t]) > Cardinality(mustv[t]) /\ diedc[t] = 0)
+W_NoUnheldYielded == ~(\E k \in 1..Len(calls) : \E w \in Range(calls[k].y) : ~held[w])
 W_NoTwoCallers == ~(\E t1, t2 \in Threads : t1 # t2 /\ tpc[t1] = "yield" /\ tpc[t2] = "yield")
 
 Terminal == nsteps = MaxSteps /\ Idle
